@@ -68,70 +68,80 @@ fn run_one(v: &Value, out: &mut Vec<String>) {
     unsafe { psim::PSIM = Some(sim) };
     let sim = psim::psim().unwrap();
 
+    // "other_thread": the handle is used from a thread that did not create it
+    let drive = |p: Popen| -> Option<Popen> {
+        let sim = psim::psim().unwrap();
     let mut popen = Some(p);
-    for op in v["ops"].as_array().unwrap() {
-        let a = op.as_array().unwrap();
-        let name = a[0].as_str().unwrap();
-        sim.script_point(b'K');
-        if name == "delay" {
-            let d = a[1].as_u64().unwrap();
-            let to = sim.now + d;
-            sim.advance(to);
-            sim.log(json!({"e":"delay","now":tpair(sim.now)}));
-            continue;
-        }
-        let arg = a.get(1).and_then(|x| x.as_u64()).unwrap_or(0);
-        let sarg = a.get(1).and_then(|x| x.as_i64()).unwrap_or(0);
-        sim.sys_in_call = 0;
-        sim.unfolded = 0;
-        sim.log(json!({"e":"api","op":name,"d":tpair(arg),"n":if name == "send_signal" { sarg } else { arg as i64 },"now":tpair(sim.now)}));
-        let res = catch_unwind(AssertUnwindSafe(|| {
-            let p = popen.as_mut().unwrap();
-            match name {
-                "poll" => opt_json(p.poll()),
-                "wait" => match p.wait() {
-                    Ok(s) => st_json(s),
-                    Err(e) => err_json(&e, perrno(&e)),
-                },
-                "wait_timeout" => match p.wait_timeout(Duration::from_nanos(arg)) {
-                    Ok(s) => opt_json(s),
-                    Err(e) => err_json(&e, perrno(&e)),
-                },
-                "pid" => match p.pid() {
-                    Some(x) => json!({"k":"some","v": x as i64 - sim.real_pid as i64 + psim::VPID}),
-                    None => json!({"k":"none","v":0}),
-                },
-                "exit_status" => opt_json(p.exit_status()),
-                "terminate" => match p.terminate() {
-                    Ok(()) => json!({"k":"ok","v":0}),
-                    Err(e) => err_json(&e, e.raw_os_error()),
-                },
-                "kill" => match p.kill() {
-                    Ok(()) => json!({"k":"ok","v":0}),
-                    Err(e) => err_json(&e, e.raw_os_error()),
-                },
-                "send_signal" => match p.send_signal(sarg as i32) {
-                    Ok(()) => json!({"k":"ok","v":0}),
-                    Err(e) => err_json(&e, e.raw_os_error()),
-                },
-                "detach" => {
-                    p.detach();
-                    json!({"k":"ok","v":0})
-                }
-                x => panic!("bad op {}", x),
+        for op in v["ops"].as_array().unwrap() {
+            let a = op.as_array().unwrap();
+            let name = a[0].as_str().unwrap();
+            sim.script_point(b'K');
+            if name == "delay" {
+                let d = a[1].as_u64().unwrap();
+                let to = sim.now + d;
+                sim.advance(to);
+                sim.log(json!({"e":"delay","now":tpair(sim.now)}));
+                continue;
             }
-        }));
-        let res = res.unwrap_or(json!({"k":"panic","v":0}));
-        sim.log(json!({"e":"apiret","op":name,"res":res,"now":tpair(sim.now),"nsys":sim.sys_in_call}));
-    }
-    if v["drop"].as_bool().unwrap_or(true) {
-        sim.script_point(b'K');
-        sim.sys_in_call = 0;
-        sim.log(json!({"e":"api","op":"drop","d":tpair(0),"n":0,"now":tpair(sim.now)}));
-        let r = catch_unwind(AssertUnwindSafe(|| drop(popen.take())));
-        let res = if r.is_ok() { json!({"k":"ok","v":0}) } else { json!({"k":"panic","v":0}) };
-        sim.log(json!({"e":"apiret","op":"drop","res":res,"now":tpair(sim.now),"nsys":sim.sys_in_call}));
-    }
+            let arg = a.get(1).and_then(|x| x.as_u64()).unwrap_or(0);
+            let sarg = a.get(1).and_then(|x| x.as_i64()).unwrap_or(0);
+            sim.sys_in_call = 0;
+            sim.unfolded = 0;
+            sim.log(json!({"e":"api","op":name,"d":tpair(arg),"n":if name == "send_signal" { sarg } else { arg as i64 },"now":tpair(sim.now)}));
+            let res = catch_unwind(AssertUnwindSafe(|| {
+                let p = popen.as_mut().unwrap();
+                match name {
+                    "poll" => opt_json(p.poll()),
+                    "wait" => match p.wait() {
+                        Ok(s) => st_json(s),
+                        Err(e) => err_json(&e, perrno(&e)),
+                    },
+                    "wait_timeout" => match p.wait_timeout(Duration::from_nanos(arg)) {
+                        Ok(s) => opt_json(s),
+                        Err(e) => err_json(&e, perrno(&e)),
+                    },
+                    "pid" => match p.pid() {
+                        Some(x) => json!({"k":"some","v": x as i64 - sim.real_pid as i64 + psim::VPID}),
+                        None => json!({"k":"none","v":0}),
+                    },
+                    "exit_status" => opt_json(p.exit_status()),
+                    "terminate" => match p.terminate() {
+                        Ok(()) => json!({"k":"ok","v":0}),
+                        Err(e) => err_json(&e, e.raw_os_error()),
+                    },
+                    "kill" => match p.kill() {
+                        Ok(()) => json!({"k":"ok","v":0}),
+                        Err(e) => err_json(&e, e.raw_os_error()),
+                    },
+                    "send_signal" => match p.send_signal(sarg as i32) {
+                        Ok(()) => json!({"k":"ok","v":0}),
+                        Err(e) => err_json(&e, e.raw_os_error()),
+                    },
+                    "detach" => {
+                        p.detach();
+                        json!({"k":"ok","v":0})
+                    }
+                    x => panic!("bad op {}", x),
+                }
+            }));
+            let res = res.unwrap_or(json!({"k":"panic","v":0}));
+            sim.log(json!({"e":"apiret","op":name,"res":res,"now":tpair(sim.now),"nsys":sim.sys_in_call}));
+        }
+        if v["drop"].as_bool().unwrap_or(true) {
+            sim.script_point(b'K');
+            sim.sys_in_call = 0;
+            sim.log(json!({"e":"api","op":"drop","d":tpair(0),"n":0,"now":tpair(sim.now)}));
+            let r = catch_unwind(AssertUnwindSafe(|| drop(popen.take())));
+            let res = if r.is_ok() { json!({"k":"ok","v":0}) } else { json!({"k":"panic","v":0}) };
+            sim.log(json!({"e":"apiret","op":"drop","res":res,"now":tpair(sim.now),"nsys":sim.sys_in_call}));
+        }
+        popen
+    };
+    let mut popen = if v["other_thread"].as_bool().unwrap_or(false) {
+        std::thread::scope(|s| s.spawn(|| drive(p)).join().unwrap())
+    } else {
+        drive(p)
+    };
     let fin = format!("{:?}", sim.st);
     let drift = sim.script_drift;
     sim.log(json!({"e":"end","st":fin,"drift":drift}));
